@@ -246,12 +246,32 @@ pub fn random(a: &Args) -> i32 {
     };
     let (r_plain, r_mw) = (build(false), build(true));
     let paths = ["/json", "/jsonerr", "/typed", "/ctx", "/slice", "/sliceref", "/blocking", "/reg/v", "/reg/f", "/reg/none", "/st/a/b", "/st"];
-    let bodies: Vec<(&str, Vec<u8>)> = vec![
-        ("empty", vec![]), ("json-obj", br#"{"a":5}"#.to_vec()), ("json-num", b"7".to_vec()), ("json-trunc", br#"{"a":"#.to_vec()), ("text", b"hello".to_vec()),
-        ("beve-obj", beve::to_vec(&json!({"a": 5})).unwrap()), ("beve-f64s", Message::builder().body_typed_slice(&[1.5f64, 2.5]).build().body),
-        ("beve-i32s", Message::builder().body_typed_slice(&[1i32, 2]).build().body), ("beve-trunc", vec![0x64, 0x08, 0x00]), ("binary", vec![0xff, 0x00, 0x80, 0x7f]),
-        ("beve-empty-generic", vec![0x05, 0x00]),
+    let mut bodies: Vec<(String, Vec<u8>)> = vec![
+        ("empty".into(), vec![]), ("json-obj".into(), br#"{"a":5}"#.to_vec()), ("json-num".into(), b"7".to_vec()), ("json-trunc".into(), br#"{"a":"#.to_vec()), ("text".into(), b"hello".to_vec()),
+        ("beve-obj".into(), beve::to_vec(&json!({"a": 5})).unwrap()), ("beve-f64s".into(), Message::builder().body_typed_slice(&[1.5f64, 2.5]).build().body),
+        ("beve-i32s".into(), Message::builder().body_typed_slice(&[1i32, 2]).build().body), ("beve-trunc".into(), vec![0x64, 0x08, 0x00]), ("binary".into(), vec![0xff, 0x00, 0x80, 0x7f]),
+        ("beve-empty-generic".into(), vec![0x05, 0x00]),
+        // JSON syntax carrying bytes that are not valid UTF-8 (inside a string, in a key), overlong and surrogate
+        // encodings, a BOM, trailing garbage: "arbitrary body bytes" includes these
+        ("json-str-ff".into(), b"\"a\xFFb\"".to_vec()), ("json-obj-badutf8".into(), b"{\"a\":\"\xC3\x28\"}".to_vec()), ("json-key-ff".into(), b"{\"\xFF\":1}".to_vec()),
+        ("json-overlong".into(), b"\"\xC0\xAF\"".to_vec()), ("json-surrogate".into(), b"\"\xED\xA0\x80\"".to_vec()), ("json-bom".into(), b"\xEF\xBB\xBF{\"a\":5}".to_vec()),
+        ("json-trailing".into(), br#"{"a":5} x"#.to_vec()), ("json-ws".into(), b"  \n".to_vec()), ("json-null".into(), b"null".to_vec()), ("json-nul-byte".into(), b"{\"a\":\"\x00\"}".to_vec()),
+        ("json-obj-a-ff".into(), b"{\"a\":5,\"s\":\"x\xFEy\"}".to_vec()),
     ];
+    // seeded random mutations of well-formed bodies
+    let seeds_b: Vec<(String, Vec<u8>)> = bodies.iter().filter(|(n, _)| ["json-obj", "beve-obj", "beve-f64s", "json-obj-a-ff"].contains(&n.as_str())).cloned().collect();
+    for (name, b) in seeds_b {
+        for k in 0..a.usize("mutations", 6) {
+            let mut m = b.clone();
+            match rng.gen_range(0..4) {
+                0 => { let i = rng.gen_range(0..m.len()); m[i] ^= 1 << rng.gen_range(0..8); }
+                1 => { let i = rng.gen_range(0..=m.len()); m.insert(i, rng.r#gen()); }
+                2 => { let i = rng.gen_range(0..m.len()); m.remove(i); }
+                _ => { let i = rng.gen_range(0..m.len()); m[i] = [0xFF, 0x80, 0x00, 0xC3][rng.gen_range(0..4)]; }
+            }
+            bodies.push((format!("{name}-mut{k}"), m));
+        }
+    }
     for path in paths {
         for fmt in [0u16, 1, 2, 3, 4, 77, 0xFFFF] {
             for (bname, body) in &bodies {
